@@ -190,12 +190,11 @@ impl<'a, D: DependencyProvider> Encoder<'a, D> {
         }
 
         // Add clauses for externally excluded candidates.
+        // Note: an excluded candidate can already be assigned true (a soft
+        // requirement names solvables directly); `add_exclusion_clause` then
+        // reports the clause as conflicting.
         for &(solvable, reason) in &package_candidates.excluded {
-            let variable = self.add_exclusion_clause(solvable.into(), reason);
-            debug_assert!(
-                self.state.decision_tracker.assigned_value(variable) != Some(true),
-                "it cannot be possible that the excluded candidate is already uninstallable"
-            )
+            self.add_exclusion_clause(solvable.into(), reason);
         }
     }
 
